@@ -23,6 +23,7 @@ import (
 	"io/ioutil"
 	"net/http"
 	"net/url"
+	"strings"
 	"sync"
 
 	"github.com/bytedance/sonic/ast"
@@ -258,10 +259,16 @@ func (self *HTTPRequest) GetMapBody(key string) string {
 		if v.Check() != nil {
 			return ""
 		}
+		// NOTICE: a null member has no value (just like an absent one)
+		if v.Type() == ast.V_NULL {
+			return ""
+		}
 		j, e := v.Raw()
 		if e != nil {
 			return ""
 		}
+		// NOTICE: the raw text of a member may carry the blanks around it, which breaks number/bool parsing
+		j = strings.TrimSpace(j)
 		if v.Type() == ast.V_STRING {
 			j, e = v.String()
 			if e != nil {
